@@ -276,6 +276,8 @@ type Association struct {
 	myNextRSN        uint32
 	reconfigs        map[uint32]*chunkReconfig
 	reconfigRequests map[uint32]*paramOutgoingResetRequest
+	// request sequence numbers of the most recent reset requests already performed
+	performedResetRequests []uint32
 
 	// Non-RFC internal data
 	sourcePort              uint16
@@ -3728,7 +3730,12 @@ func (a *Association) resetOutgoingStreamSequenceNumbers(reconfigRequestSequence
 // The caller should hold the lock.
 func (a *Association) resetStreamsIfAny(resetRequest *paramOutgoingResetRequest) *packet {
 	result := reconfigResultSuccessPerformed
-	if sna32LTE(resetRequest.senderLastTSN, a.peerLastTSN()) {
+	if a.resetRequestAlreadyPerformed(resetRequest.reconfigRequestSequenceNumber) {
+		// RFC 6525 sec 5.2.1: a request that was performed before is a retransmission
+		// (the response was lost). Answer it again, but do not reset the streams a
+		// second time: their identifiers may have been opened again since.
+		delete(a.reconfigRequests, resetRequest.reconfigRequestSequenceNumber)
+	} else if sna32LTE(resetRequest.senderLastTSN, a.peerLastTSN()) {
 		a.log.Debugf("[%s] resetStream(): senderLastTSN=%d <= peerLastTSN=%d",
 			a.name, resetRequest.senderLastTSN, a.peerLastTSN())
 		for _, id := range resetRequest.streamIdentifiers {
@@ -3743,6 +3750,10 @@ func (a *Association) resetStreamsIfAny(resetRequest *paramOutgoingResetRequest)
 			delete(a.streams, s.streamIdentifier)
 		}
 		delete(a.reconfigRequests, resetRequest.reconfigRequestSequenceNumber)
+		a.performedResetRequests = append(a.performedResetRequests, resetRequest.reconfigRequestSequenceNumber)
+		if len(a.performedResetRequests) > maxReconfigRequests {
+			a.performedResetRequests = a.performedResetRequests[1:]
+		}
 	} else {
 		a.log.Debugf("[%s] resetStream(): senderLastTSN=%d > peerLastTSN=%d",
 			a.name, resetRequest.senderLastTSN, a.peerLastTSN())
@@ -3755,6 +3766,17 @@ func (a *Association) resetStreamsIfAny(resetRequest *paramOutgoingResetRequest)
 			result:                         result,
 		},
 	}})
+}
+
+// The caller should hold the lock.
+func (a *Association) resetRequestAlreadyPerformed(requestSequenceNumber uint32) bool {
+	for _, rsn := range a.performedResetRequests {
+		if rsn == requestSequenceNumber {
+			return true
+		}
+	}
+
+	return false
 }
 
 // Move the chunk peeked with a.pendingQueue.peek() to the inflightQueue.
